@@ -828,7 +828,31 @@ def mutants(args):
 
 
 def free_running_pass(sc, racebin, plain, seed):
-    return {"violations": 0, "note": "not built yet"}
+    """The same task sets with real parallelism and no scheduler under -race: un-simulated, not seed-replayable.
+    It exists to look where the baton cannot (inside one dependency call, goroutines a future edit spawns);
+    it can add findings, never remove or excuse one."""
+    n = 400
+    agg = vlib.run_engine_a(sc, racebin, "c10", "thorough", seed + 5000000, n, 25, 4, race=True, refbin=plain, timeout=3600, gomaxprocs=8, free=True)
+    known = vlib.load_known("C10")
+    nv = 0
+    seen = set()
+    for r in agg.violations:
+        sig = r["violation"]["sig"]
+        if sig in seen:
+            continue
+        seen.add(sig)
+        km = vlib.match_known(known, sig)
+        if km:
+            print("KNOWN-FINDING: property=C10 %s (%s; free-running pass)" % (km[1], sig), flush=True)
+            continue
+        rdir = vlib.out_dir("replays")
+        path = os.path.join(rdir, "C10-free-%d.json" % r["seed"])
+        json.dump({"property": "C10", "engine": "A-free", "seed": r["seed"], "spec": r["spec"], "violation": r["violation"],
+                   "note": "found by the un-simulated free-running pass: not seed-replayable; re-run the same task set a few hundred times under -race"}, open(path, "w"), indent=1)
+        print("VIOLATION property=C10 replay=%s" % path, flush=True)
+        log("  free-running pass: %s %s" % (sig, r["violation"]["detail"][:400].replace("\n", " | ")))
+        nv += 1
+    return {"violations": nv, "runs": agg.runs, "un_simulated": True, "seed_replayable": False, "distinct_violation_signatures": sorted(seen)}
 
 
 CHECKS = {"C11": check_c11, "C18": check_c18, "C04": check_c04, "C06": check_c06, "C09": check_c09, "C10": check_c10}
